@@ -395,7 +395,7 @@ func (p *Prog) Normalise(known map[string]bool, keep func(*ssa.Function) bool) (
 			return
 		}
 		state[fn] = 1
-		nLoops, nMaps, fwd := 0, 0, false
+		nLoops, nMaps, nSpec, fwd := 0, 0, 0, false
 		for round := 0; round < 6; round++ {
 			changed := false
 			for again, guard := true, 0; again && guard < 200; guard++ {
@@ -429,13 +429,17 @@ func (p *Prog) Normalise(known map[string]bool, keep func(*ssa.Function) bool) (
 				}
 			}
 			n := UnrollTableLoops(fn)
+			for i := 0; i < 4 && specialiseConstIndex(fn); i++ {
+				nSpec++
+				changed = true
+			}
 			m := ExpandMapLookups(fn)
 			nLoops += n
 			nMaps += m
 			if n > 0 || m > 0 {
 				changed = true
 			}
-			if inlinedInto[fn] || nLoops > 0 || nMaps > 0 {
+			if inlinedInto[fn] || nLoops > 0 || nMaps > 0 || nSpec > 0 {
 				for i := 0; i < 4; i++ {
 					a := forwardTableLoads(fn)
 					b := foldConstBranches(fn)
@@ -450,8 +454,8 @@ func (p *Prog) Normalise(known map[string]bool, keep func(*ssa.Function) bool) (
 				break
 			}
 		}
-		if nLoops > 0 || nMaps > 0 {
-			tables = append(tables, fmt.Sprintf("%s: %d loop(s) unrolled, %d map lookup(s) expanded, loads forwarded=%v", FuncName(fn), nLoops, nMaps, fwd))
+		if nLoops > 0 || nMaps > 0 || nSpec > 0 {
+			tables = append(tables, fmt.Sprintf("%s: %d loop(s) unrolled, %d map lookup(s) expanded, %d constant-index selection(s) specialised, loads forwarded=%v", FuncName(fn), nLoops, nMaps, nSpec, fwd))
 		}
 		state[fn] = 2
 		if !known[FuncName(fn)] && keep != nil && keep(fn) {
